@@ -87,6 +87,7 @@ type Config struct {
 	MutableLets         bool // exported `let` counters mutated from other modules via exported functions
 	Unused              bool // add declarations and whole modules that nothing uses (C04)
 	DeferLive           bool // mutate shared counters without logging the value at once (C10: cross-module order may differ)
+	CollidingLocals     bool // ESM modules declare their exports under short local names shared between modules (x, x2, …) and export them with `export { x as aN }`: scope hoisting and cross-chunk export aliases must keep them apart
 	ThisOfNamespaceCall bool // also call ns.f() on a namespace import (receiver = the namespace object natively)
 }
 
@@ -416,14 +417,27 @@ func (g *gen) body(i int) Module {
 	if !g.inCyc[i] && g.chance(60, "letconst") {
 		decl = []string{"let", "const"}[g.intn(2, "lc")]
 	}
-	w(`export %s a%d = p(%d, "A%d");`, decl, i, g.id(), i)
-	w(`export function f%d() { return "F%d" + (this == null || this === globalThis ? "" : ":recv"); }`, i, i)
 	cdecl := "var"
 	if !g.inCyc[i] {
 		cdecl = "let"
 	}
-	w(`export %s c%d = %d;`, cdecl, i, i*10)
-	w(`export function inc%d() { c%d++; }`, i, i)
+	if g.cfg.CollidingLocals && g.chance(70, "colliding") {
+		// the same few local names in every module; the suffixed ones are what a renamer would generate
+		pool := []string{"x", "x2", "y", "x22", "x3", "y2", "x1", "x23"}
+		off := g.intn(len(pool), "localoff")
+		la, lf, lc, li := pool[off%len(pool)], pool[(off+1)%len(pool)], pool[(off+2)%len(pool)], pool[(off+3)%len(pool)]
+		g.labels["colliding-locals"] = true
+		w(`%s %s = p(%d, "A%d");`, decl, la, g.id(), i)
+		w(`function %s() { return "F%d" + (this == null || this === globalThis ? "" : ":recv"); }`, lf, i)
+		w(`%s %s = %d;`, cdecl, lc, i*10)
+		w(`function %s() { %s++; }`, li, lc)
+		w(`export { %s as a%d, %s as f%d, %s as c%d, %s as inc%d };`, la, i, lf, i, lc, i, li, i)
+	} else {
+		w(`export %s a%d = p(%d, "A%d");`, decl, i, g.id(), i)
+		w(`export function f%d() { return "F%d" + (this == null || this === globalThis ? "" : ":recv"); }`, i, i)
+		w(`export %s c%d = %d;`, cdecl, i, i*10)
+		w(`export function inc%d() { c%d++; }`, i, i)
+	}
 	m.Exports = append(m.Exports, exportNames(i)...)
 	// read the imports: immediately when safe, else inside a deferred reader
 	var readParts []string
